@@ -50,6 +50,38 @@ def check_panics(ctx, fb, cfg, fn, rule="R13-1", skip_callee=None, classify=None
                         out.append(t)
         return out
     todo.extend(opaque_ws(paths))
+    callers = {}          # callee path -> list of path sets that call it
+
+    def note_callers(ps):
+        for t in opaque_ws(ps):
+            callers.setdefault(t.path, []).append(ps)
+    note_callers(paths)
+
+    def holds_at_call_sites(u, c):
+        """an obligation of callee c that only mentions c's parameters is a *requires* of c: it holds if it can be
+        discharged, with the arguments substituted, from the facts preceding every call of c"""
+        from ..symex import subst
+        if u["kind"] == "Diverge" or not u["ops"]:
+            return False
+        sites = 0
+        for ps in callers.get(c.path, []):
+            ind = panics.induction_vars(ps)
+            for p in ps:
+                for i, e in enumerate(p.trace):
+                    if e[0] != "call":
+                        continue
+                    t = fb.lookup(e[1].split("@")[0]) or (fb.lookup(e[4]) if len(e) > 4 and e[4] else None)
+                    if t is None or t.path != c.path:
+                        continue
+                    sites += 1
+                    m = {}
+                    for k, a in enumerate(e[2]):
+                        m[("param", k + 1)] = a
+                    ops2 = tuple(subst(o, m) if isinstance(o, tuple) else o for o in u["ops"])
+                    f = panics.facts_with_induction(p.trace, i, ind)
+                    if panics.discharge(u["kind"], ops2, f, set()) is not None:
+                        return False
+        return sites > 0
     seen_c = set()
     while todo:
         c = todo.pop()
@@ -66,9 +98,16 @@ def check_panics(ctx, fb, cfg, fn, rule="R13-1", skip_callee=None, classify=None
         t2, d2, u2 = panics.analyse(cps)
         tot += t2
         done += d2
+        note_callers(cps)
+        kept = []
         for u in u2:
+            if c.kind != "Closure" and holds_at_call_sites(u, c):
+                done += 1
+                ctx.notes.append("%s: requires `%s` of %s discharged at its call sites" % (inst, u["text"][:80], c.path))
+                continue
             u["text"] += " [inside %s %s, parameters unconstrained]" % ("closure" if c.kind == "Closure" else "callee", c.path.split("::")[-2:])
-        und += u2
+            kept.append(u)
+        und += kept
         for p in cps:
             for e in p.trace:
                 if e[0] == "enter":
